@@ -2,10 +2,16 @@ package main
 
 import (
 	"verif/harness/mon/c03"
+	"verif/harness/mon/c09"
+	"verif/harness/mon/c10"
+	"verif/harness/mon/c11"
 	"verif/harness/mon/c17"
 )
 
 func init() {
 	register("C03", c03.Run)
+	register("C09", c09.Run)
+	register("C10", c10.Run)
+	register("C11", c11.Run)
 	register("C17", c17.Run)
 }
